@@ -142,7 +142,7 @@ Section C01.
   (** *** C01.receipts_monotone *)
   Lemma step_keeps_receipts s o : keeps (is_rkey P) s (fst (step P s o)).
   Proof.
-    unfold step. destruct (exec P (fst o) s (snd o)) as [s'| |] eqn:E; cbn [fst]; try apply keeps_refl.
+    unfold step. destruct (deliver P (fst o) s (snd o)) as [s'| |] eqn:E0; [apply deliver_ok in E0 as E| |]; cbn [fst]; try apply keeps_refl.
     eapply exec_keeps_receipts; exact E.
   Qed.
 
@@ -197,7 +197,7 @@ Section C01.
     { apply recv_rejected_if_receipt. rewrite T.
       apply recv_sets_receipt in H.
       rewrite (run_keeps_receipts ops s1 _ _ (ex_intro _ _ eq_refl) H). discriminate. }
-    split; [exact E|]. unfold step. cbn [fst snd]. rewrite E. reflexivity.
+    split; [exact E|]. apply step_rejected. intros s' X. rewrite E in X. discriminate.
   Qed.
 
   (** ** effects at most once *)
@@ -431,7 +431,7 @@ Section C01.
   Lemma run_log_ok ops : forall s, log_ok s -> log_ok (run P s ops).
   Proof.
     induction ops as [|o ops IH]; intros s L; cbn [run]; [exact L|].
-    apply IH. unfold step. destruct (exec P (fst o) s (snd o)) as [s'| |] eqn:E; cbn [fst]; try exact L.
+    apply IH. unfold step. destruct (deliver P (fst o) s (snd o)) as [s'| |] eqn:E0; [apply deliver_ok in E0 as E| |]; cbn [fst]; try exact L.
     eapply exec_log_ok; eauto.
   Qed.
 
